@@ -275,7 +275,7 @@ func TestC08(t *testing.T) {
 	}
 
 	// (2) with dialect
-	pick := pickMsgs(vh.Sub(seed, "c08-msgs"), all, vh.Pick(40, 0))
+	pick := pickMsgs(vh.Sub(seed, "c08-msgs"), all, vh.Pick(100, 0))
 	// make sure messages with strings (base and extension) are present
 	for _, mi := range all {
 		for i := range mi.Layout.Fields {
@@ -301,7 +301,7 @@ func TestC08(t *testing.T) {
 		class string
 	}
 	var forRouter []routed
-	nVals := vh.Pick(3, 12)
+	nVals := vh.Pick(6, 12)
 	for _, mi := range genv.layouts {
 		for _, version := range []int{1, 2} {
 			if version == 1 && mi.Msg.GetID() > 255 {
